@@ -5,7 +5,8 @@ package main
 // Correspondence (op lines compared with lean/Driver/C15.lean):
 //   consts                       constants read from the code (MaxPackageLength, PackageMaxLen, prefix, CheckCode bound, heartbeat)
 //   run <hex> / runc <chunks>    the REAL Peer.readConn + Peer.handle loop (hook network/p2p/verif_peer.go)
-//                                on a fake net.Conn, vs. the model's read loop
+//                                on a fake net.Conn, vs. the model's read loop (the model of the code AS IT IS
+//                                NOW: runFixed / hsStepFixed; the pre-repair model only serves the refutations)
 //   allocz / hsalloc             bytes requested per step, measured with runtime.MemStats, in MiB
 //   hs / hsc                     the REAL readHandshakeBuf vs. the model's pre-handshake reader
 //
@@ -13,7 +14,7 @@ package main
 // raw CBC *plaintext* (padding included) when the content length is a multiple of 16; the real
 // parser receives the corresponding CBC *ciphertext* (encrypted here with crypto/aes + crypto/cipher
 // of the standard library, IV = key as in common/crypto/aes.go).  For other lengths the bytes are the
-// same on both sides (CryptBlocks panics before reading them).  Trusted: stdlib CBC decrypt∘encrypt = id.
+// same on both sides (AesDecrypt refuses them before reading them).  Trusted: stdlib CBC decrypt∘encrypt = id.
 //
 // ECIES: the op line carries the generator's knowledge "the ephemeral point is valid" / "the MAC is
 // valid" (the model's uninterpreted predicates pointOk / macOk).
@@ -235,8 +236,10 @@ func c15ImplStep(p *p2p.Peer) (ev string, cont bool) {
 			switch err {
 			case crypto.ErrPKCS5UnPadding:
 				return "err:unpad"
-			case p2p.ErrUnavailablePackage:
-				return "err:badcode"
+			case crypto.ErrAesCipherLength:
+				return "err:badlength"
+			case p2p.ErrUnavailablePackage: // CheckCode, or fewer than 4 bytes after unpadding
+				return "err:handle-unavailable"
 			}
 			return "err:handle-" + err.Error()
 		}
@@ -514,8 +517,11 @@ func c15GenHs(c *Ctx, pub *ecies.PublicKey) c15HsCase {
 		return c15HsCase{c15Hdr(0), false, false, "hs-zero-length"}
 	case k < 15:
 		return c15HsCase{c15Hdr(uint32(p2p.PackageMaxLen) + 1 + uint32(c.Rnd.Intn(2))*0x7fffffff), false, false, "hs-oversize"}
-	default: // a length the frame reader would refuse but the handshake reader accepts; nothing follows
-		return c15HsCase{c15Hdr(params.MaxPackageLength + 1), false, false, "hs-declared>MaxPackageLength"}
+	default: // the bound of the handshake reader; nothing follows the 6 bytes
+		if c.Rnd.Intn(4) == 0 { // accepted: the reader allocates MaxPackageLength bytes and waits
+			return c15HsCase{c15Hdr(params.MaxPackageLength), false, false, "hs-declared=MaxPackageLength"}
+		}
+		return c15HsCase{c15Hdr(params.MaxPackageLength + 1 + uint32(c.Rnd.Intn(2))*4096), false, false, "hs-declared>MaxPackageLength"}
 	}
 }
 
@@ -996,19 +1002,18 @@ func c15(c *Ctx) {
 			}
 		}
 	}
-	// pre-handshake: 6 bytes from an unauthenticated remote, declared length accepted up to PackageMaxLen
-	{
-		declared := 64*mib + 4096
-		conn := &c15Conn{chunks: [][]byte{c15Hdr(uint32(declared))}}
+	// pre-handshake: 6 bytes from an unauthenticated remote; the declared length must be bounded like a frame's
+	for _, declared := range []int{8*mib + 4096, 64*mib + 4096} {
+		stream := c15Hdr(uint32(declared))
 		var ev string
-		got := measure(func() { ev = c15ImplHs([][]byte{conn.chunks[0]}) })
+		got := measure(func() { ev = c15ImplHs([][]byte{stream}) })
 		c.Op(fmt.Sprintf("hsalloc %d", declared), fmt.Sprintf("%s mib=%d", ev, got/mib))
 		c.Count("hs-alloc-probe")
 		bound := uint64(6 + 2*int(params.MaxPackageLength))
-		if got > bound && p2p.PackageMaxLen > int(params.MaxPackageLength) {
-			c15Fail(c, "c15/handshake-alloc", fmt.Sprintf("readHandshakeBuf: a 6-byte prefix (declared length %d) from an unauthenticated remote made the node allocate %d bytes before any payload byte arrived; "+
-				"the accepted limit is PackageMaxLen=%d (vs MaxPackageLength=%d for frames), and HandleConn sets no read deadline before the handshake, so the buffer stays pinned as long as the TCP connection is open",
-				declared, got, p2p.PackageMaxLen, params.MaxPackageLength), map[string]interface{}{"stream": c15Hex(c15Hdr(uint32(declared)))})
+		if got > bound {
+			c15Fail(c, "c15/handshake-alloc", fmt.Sprintf("readHandshakeBuf: a 6-byte prefix (declared length %d) from an unauthenticated remote made the node allocate %d bytes (> 6+2*MaxPackageLength=%d) before any payload byte arrived; "+
+				"HandleConn sets no read deadline before the handshake, so the buffer stays pinned as long as the TCP connection is open",
+				declared, got, bound), map[string]interface{}{"stream": c15Hex(stream)})
 		}
 	}
 
